@@ -87,6 +87,12 @@ def run_case(case):
             prof.__enter__()
         elif name == 'exit':
             prof.__exit__(None, None, None)
+        elif name == 'exit_exc':
+            # the with-block is left by an exception: it gives back its one request, like any other way out
+            try:
+                raise ValueError('leaving the block')
+            except ValueError as e:
+                prof.__exit__(type(e), e, e.__traceback__)
         elif name == 'call_ret':
             ret(1)
         elif name == 'call_raise':
